@@ -107,6 +107,23 @@ func parseFile(path string) ([]*textFn, error) {
 		}
 		// function-like macro invocation occupying the statement
 		t := strings.TrimSpace(s)
+		// a byte-encoded instruction whose macro name spells its operands
+		// (ADDSUBPS_X2_X3 = LONG $0x…) is kept under that name: ASM.lost
+		// reads the operand roles from it
+		if mac, ok := macros[t]; ok && !mac.isFunc && (encodedRe.MatchString(t) || encodedMemRe.MatchString(t)) {
+			raw := true
+			for _, bl := range mac.body {
+				for _, part := range strings.Split(bl, ";") {
+					f := strings.Fields(part)
+					if len(f) > 0 && f[0] != "LONG" && f[0] != "BYTE" && f[0] != "WORD" {
+						raw = false
+					}
+				}
+			}
+			if raw {
+				return []string{t}
+			}
+		}
 		if m := regexp.MustCompile(`^([A-Za-z_][A-Za-z_0-9]*)\((.*)\)$`).FindStringSubmatch(t); m != nil {
 			if mac, ok := macros[m[1]]; ok && mac.isFunc {
 				args := splitArgs(m[2])
@@ -380,6 +397,7 @@ func Run() *core.Result {
 	res := core.NewResult("ASM")
 	res.Rules = append(res.Rules,
 		"ASM.window: in every assembly loop, each memory access through an induction register stays inside the window of elements the iteration advances over (offset >= 0 and offset + width <= step)",
+		"ASM.lost: an accumulated partial result is read before the function returns, and a data value moved into a vector register is read before the register is overwritten (CFG over the instruction text; unknown instructions count as reads)",
 		"ASM.units: a register holding a byte quantity (scaled by SHLQ $3/$2 or multiplied by one) is never scaled again by the element size in an address or LEAQ")
 	res.Configs = append(res.Configs, "amd64 assembly text (configuration independent)")
 	files, _ := filepath.Glob(filepath.Join(core.RepoDir, "internal/asm/*/*.s"))
@@ -400,6 +418,7 @@ func Run() *core.Result {
 			checkWindows(res, fn)
 			checkTails(res, fn)
 			checkUnits(res, fn)
+			checkLost(res, fn)
 		}
 	}
 	return res
